@@ -138,3 +138,30 @@ Proof.
   - split; [vm_compute; reflexivity|]. vm_compute. discriminate.
 Qed.
 
+
+(* ---- stream half (lead): the secret travels inside a ciphertext term ---------------------- *)
+From Cedar Require Import Lib.Bytes Lib.Sym gen.Consts Model.Frame Model.FrameSpec Proofs.C09Stream.
+Local Open Scope N_scope.
+
+(* PutSecret on a stream that holds a key: whatever the current crypto mode, the emitted frame
+   is the AEAD sealing of the secret under the stream key at the current counter, and the
+   mode in force before the call is restored (also when the send is refused). *)
+Theorem C09_stream_secret_is_sealed :
+  forall (s : stream) (d : bytes) (s' : stream) (e : N) (fs : list frame) (k : bytes),
+    key s = Some k -> enc_ctr s <= CounterGuard ->
+    run_sop s (OSecret d) = (s', e, fs) ->
+    encrypted s' = encrypted s /\
+    (e = 0 -> exists f ivo a, fs = [f] /\ f_body f = Ct ivo (seal k (nonce_of (enc_iv s) (enc_ctr s)) a (d ++ [x00]))) /\
+    (e <> 0 -> fs = []).
+Proof. exact secret_is_sealed. Qed.
+Print Assumptions C09_stream_secret_is_sealed.
+
+(* CryptoForSecretIsNoop is true exactly when wrapping would change nothing: no key, or
+   already encrypting; with a key and encryption off the marker + sealed frame is needed. *)
+Theorem C09_stream_noop_exact :
+  forall s, secret_is_noop s = true <-> (key s = None \/ encrypted s = true).
+Proof.
+  intro s. unfold secret_is_noop. destruct (key s) as [k|]; split; intro H; auto.
+  - destruct H as [H|H]; [discriminate|exact H].
+Qed.
+Print Assumptions C09_stream_noop_exact.
